@@ -30,6 +30,9 @@ class DequeData(ListData):
         super().__init__(n, sel, kind)
         self.maxlen = maxlen
 
+    def havoc(self, hint):
+        return DequeData(fresh(hint + "_n", I), fresh_sel(hint, self.kind or "f"), self.kind, self.maxlen)
+
 
 def biqf_lib():
     L = stream_lib()
